@@ -178,6 +178,10 @@ pub fn calls_for(cwd: &str) -> Vec<Call> {
                 out.push(Call::with(M::Symlink, &p, t));
             }
         }
+        // relative targets: symlink() resolves them against the link's directory, and so must the macro
+        for t in ["a", "../a"] {
+            out.push(Call::with(M::Symlink, &p, t));
+        }
         out.push(Call::new(M::Remove, &p));
         out.push(Call::new(M::RemoveAll, &p));
     }
